@@ -4,6 +4,7 @@ import re
 from .runner import Failure
 
 CRASH_OUTCOMES = ("panic", "signal", "budget", "timeout")
+ADDR = re.compile(r"0x[0-9a-fA-F]{6,}")
 
 
 def norm_msg(msg):
@@ -67,9 +68,6 @@ def vm_error_message(r):
     return m.group(2) if m else None
 
 
-PROPERTY_ERRORS = ("PropertyError", "RuntimeError")
-
-
 def compare_model(prop, res, r, source, what="vm", check_message=False):
     """Compare a reference evaluator Result with a worker response. Returns Failure or None."""
     f = crash_failure(prop, r, source, what)
@@ -96,9 +94,6 @@ def compare_model(prop, res, r, source, what="vm", check_message=False):
             return Failure("%s/stdout-before-error" % prop, diff_detail(what, exp_out, got_out, source), info)
         cls = vm_error_class(r)
         ok = cls == res.err_class
-        if not ok and res.err_class in PROPERTY_ERRORS and cls in PROPERTY_ERRORS and \
-                "Undefined property" in (res.err_msg or "") and "Undefined property" in (r.get("stderr") or ""):
-            ok = True
         if not ok:
             return Failure("%s/error-class/%s-vs-%s" % (prop, res.err_class, cls),
                            "%s: model raises %s (%s), vm reports %s\n%s\n--- source\n%s" %
@@ -142,6 +137,9 @@ def same_behaviour(prop, a, b, source, what_a, what_b, tag="differential"):
         if f is not None:
             return f
     info = {"source": source, what_a: brief(a), what_b: brief(b)}
+    if ADDR.search(a.get("stdout") or "") or ADDR.search(b.get("stdout") or ""):
+        # the program printed an address: not deterministic, nothing to compare
+        return None
     if a["outcome"] != b["outcome"] or a["code"] != b["code"]:
         return Failure("%s/%s/outcome" % (prop, tag),
                        "%s: %s %s / %s: %s %s\n%s\n%s\n--- source\n%s" %
